@@ -1,4 +1,11 @@
--- Root of the `GlareModel` library: executable model (Core), lemmas (Proofs),
--- property theorems (Props) and the axiom audit.
+-- Root of the `GlareModel` library: executable model (Core), lemmas (Proofs) and
+-- property theorems (Props). `lake build` re-checks everything.
 import GlareModel.Core.Util
 import GlareModel.Core.SortKey
+import GlareModel.Core.Arith
+import GlareModel.Core.Cast
+import GlareModel.Proofs.SortKey
+import GlareModel.Proofs.SortKeyCol
+import GlareModel.Props.C08
+import GlareModel.Props.C12
+import GlareModel.Props.C13
